@@ -140,7 +140,7 @@ def _lengths(rng, N, T, cls):
     if cls == "half_precision":
         if rng.random() < 0.3:
             return None
-        return [rng.choice([T, T, T - 1, max(1, T - 4), rng.randint(1, T)]) for _ in range(N)]
+        return [rng.choice([T, T, max(1, T - 1), max(1, T - 4), rng.randint(1, T)]) for _ in range(N)]
     out = []
     for _ in range(N):
         r = rng.random()
